@@ -244,6 +244,7 @@ type kindCfg struct {
 	sbb       string
 	ignoreRaw bool
 	filterNil bool
+	title     int // -1 n/a, 0 the link/image has no title, 1 it has one (possibly empty)
 }
 
 func outcomeSet(outs []kOutcome) []string {
@@ -352,8 +353,20 @@ func expectedInline(cfg kindCfg, post bool) []string {
 	case "CodeSpanKind":
 		return []string{"<code>→T"}
 	case "LinkKind":
+		switch cfg.title {
+		case 0:
+			return []string{"<a href=\"{ESC:uri}\">→T"}
+		case 1:
+			return []string{"<a href=\"{ESC:uri}\" title=\"{ESC}\">→T"}
+		}
 		return []string{"<a href=\"{ESC:uri}\">→T", "<a href=\"{ESC:uri}\" title=\"{ESC}\">→T"}
 	case "ImageKind":
+		switch cfg.title {
+		case 0:
+			return []string{"<img src=\"{ESC:uri}\"{CALL:appendAltText}>→F"}
+		case 1:
+			return []string{"<img src=\"{ESC:uri}\" title=\"{ESC}\"{CALL:appendAltText}>→F"}
+		}
 		return []string{"<img src=\"{ESC:uri}\"{CALL:appendAltText}>→F", "<img src=\"{ESC:uri}\" title=\"{ESC}\"{CALL:appendAltText}>→F"}
 	case "AutolinkKind":
 		return []string{"<a href=\"{ESC:uri}\">{ESC}</a>→F", "<a href=\"mailto:{ESC:uri}\">{ESC}</a>→F"}
@@ -474,12 +487,20 @@ func ruleHTXKind(c *Ctx, r *htxRun) {
 			if tg.block && (kname == "ListKind" || kname == "ParagraphKind") {
 				flags = []int{0, 1}
 			}
+			// links and images: with and without a title (LinkDefinition.TitlePresent; an empty title is a title)
+			titled := !tg.block && !tg.post && (kname == "LinkKind" || kname == "ImageKind") && usesTitlePresent(fn)
+			if titled {
+				flags = []int{0, 1}
+			}
 			for _, flag := range flags {
 				for _, lv := range levels {
 					for _, sb := range sbbs {
 						for _, ir := range irs {
 							for _, fnil := range fns {
-								cfg := kindCfg{kind: kname, level: lv, sbb: sb, ignoreRaw: ir, filterNil: fnil, ordered: -1, tight: -1}
+								cfg := kindCfg{kind: kname, level: lv, sbb: sb, ignoreRaw: ir, filterNil: fnil, ordered: -1, tight: -1, title: -1}
+								if titled {
+									cfg.title = flag
+								}
 								if kname == "ListKind" {
 									cfg.ordered = flag
 								}
@@ -499,6 +520,9 @@ func ruleHTXKind(c *Ctx, r *htxRun) {
 												return int64(flag), true
 											}
 										}
+									}
+									if _, ok := isLoadOfField(v, "LinkDefinition", "TitlePresent"); ok && titled {
+										return int64(flag), true
 									}
 									if _, ok := isLoadOfField(v, "HTMLRenderer", "SoftBreakBehavior"); ok && sb != "" {
 										return sbbVal[sb], true
@@ -525,6 +549,9 @@ func ruleHTXKind(c *Ctx, r *htxRun) {
 								}
 								if cfg.tight >= 0 {
 									key += fmt.Sprintf(",tight=%v", cfg.tight == 1)
+								}
+								if cfg.title >= 0 {
+									key += fmt.Sprintf(",title=%v", cfg.title == 1)
 								}
 								if kname == "RawHTMLKind" || (kname == "HTMLBlockKind" && !tg.post) {
 									key += fmt.Sprintf(",IgnoreRaw=%v", ir)
@@ -622,6 +649,26 @@ func ruleHTXKind(c *Ctx, r *htxRun) {
 			c.Check(strings.Join(a, ",") == strings.Join(b, ","), "HTX-PAIR", pair[0]+"/"+pair[1]+":"+acc, post.Pos(), fmt.Sprintf("%s is consulted on %v when opening and on %v when closing; the receivers must be the same node", acc, a, b))
 		}
 	}
+}
+
+// usesTitlePresent: the callback reads LinkDefinition.TitlePresent somewhere (the documented "has a title" flag).
+// If it does not, the title dimension is not applicable as such and the rule falls back to the union of outcomes —
+// unless the field exists, in which case ignoring it is what HTX-KIND reports.
+func usesTitlePresent(fn *ssa.Function) bool {
+	// the field must exist in the package; whether fn loads it is decided by the enumeration itself
+	found := false
+	if fn.Pkg != nil {
+		if m, ok := fn.Pkg.Members["LinkDefinition"].(*ssa.Type); ok {
+			if st, ok := m.Type().Underlying().(*types.Struct); ok {
+				for i := 0; i < st.NumFields(); i++ {
+					if st.Field(i).Name() == "TitlePresent" {
+						found = true
+					}
+				}
+			}
+		}
+	}
+	return found
 }
 
 // accessorPaths: the receiver access paths on which the named accessor is called in fn.
